@@ -932,6 +932,14 @@ int ds_thread_state(int ord) {
     return (G.th[ord]->exited ? DS_TS_EXITED : 0) | (G.th[ord]->joined ? DS_TS_JOINED : 0) |
            (G.th[ord]->detached ? DS_TS_DETACHED : 0);
 }
+const void *ds_object_addr(char type, int ord) {
+    for (int k = 0; k < 4; ++k) {
+        if (TAB_TYPES[k] == type && ord >= 0 && ord < G.tab[k].n) {
+            return G.tab[k].v[ord].addr;
+        }
+    }
+    return NULL;
+}
 int ds_thread_count(void) {
     return G.nth;
 }
